@@ -6,7 +6,6 @@ from pyvc.dsl import FA
 
 EMPTY_V = z3.K(V, z3.BoolVal(False))
 COUNTER = smt.atom(smt.Marker('ack_id_counter', kind=smt.K_OTHER))     # the itertools.count stored in callbacks[*][0]
-ZERO = smt.box_int(z3.IntVal(0))
 
 
 def rooms(st):
@@ -87,18 +86,37 @@ def pend_ok(st):
     }
 
 
-def cb_ok(st):
-    """I4: callbacks[s] present => the counter slot 0 holds the counter, every other key is an id already issued."""
-    cb = st.get('manager', 'callbacks')
-    nxt = st.get('manager', 'ack_next')
+def slot_key(mod):
+    """The sentinel under which the id counter is stored: the module-level `<NAME> = object()` of the module that
+    defines _generate_ack_id (found by shape, so that renaming it changes nothing)."""
+    import ast
+    from pyvc import source
+    names = []
+    for n in source.module(mod).body:
+        if isinstance(n, ast.Assign) and len(n.targets) == 1 and isinstance(n.targets[0], ast.Name) and \
+                isinstance(n.value, ast.Call) and isinstance(n.value.func, ast.Name) and n.value.func.id == 'object' and not n.value.args:
+            names.append(n.targets[0].id)
+    if len(names) == 1:
+        return smt.atom(smt.Marker('sentinel:%s.%s' % (mod, names[0]), kind=smt.K_OTHER))
+    return smt.box_int(z3.IntVal(0))       # the historical slot: key 0
+
+
+def cb_ok(st, obj='manager', mod='base_manager'):
+    """I4: the only non-callback entry of callbacks[s] is the id counter; it sits under a key no packet can carry
+    (not a JSON/msgpack value); every other key is an id that was already issued."""
+    cb = st.get(obj, 'callbacks')
+    nxt = st.get(obj, 'ack_next')
     s, k = z3.Consts('cb_s cb_k', V)
+    pres = z3.And(cb.c['dom'][s], cb.c['.dom'][s][k])
     return {
-        'callbacks.counter-slot': FA([s], z3.Implies(cb.c['dom'][s], z3.And(cb.c['.dom'][s][ZERO], cb.c['..'][s][ZERO] == COUNTER,
-                                                                                      nxt.c['.'][s] >= 1)), patterns=[cb.c['dom'][s]]),
-        'callbacks.ids-issued': FA([s, k], z3.Implies(z3.And(cb.c['dom'][s], cb.c['.dom'][s][k], k != ZERO),
-                                                             z3.And(smt.kind(k) == smt.K_INT, smt.int_of(k) >= 1, smt.int_of(k) < nxt.c['.'][s],
-                                                                    cb.c['..'][s][k] != COUNTER)),
-                                          patterns=[cb.c['.dom'][s][k]]),
+        'callbacks.counter-slot-unreachable': FA([s, k], z3.Implies(z3.And(pres, cb.c['..'][s][k] == COUNTER), smt.kind(k) == smt.K_OTHER)),
+        'callbacks.counter-positive': FA([s], z3.Implies(cb.c['dom'][s], nxt.c['.'][s] >= 1)),
+        'callbacks.counter-slot-present': FA([s], z3.Implies(cb.c['dom'][s], z3.And(cb.c['.dom'][s][slot_key(mod)],
+                                                                                     cb.c['..'][s][slot_key(mod)] == COUNTER))),
+        'callbacks.are-callables': FA([s, k], z3.Implies(z3.And(pres, cb.c['..'][s][k] != COUNTER),
+                                                         z3.And(smt.truthy(cb.c['..'][s][k]), cb.c['..'][s][k] != NONE))),
+        'callbacks.ids-issued': FA([s, k], z3.Implies(z3.And(pres, cb.c['..'][s][k] != COUNTER),
+                                                      z3.And(smt.kind(k) == smt.K_INT, smt.int_of(k) >= 1, smt.int_of(k) < nxt.c['.'][s]))),
     }
 
 
@@ -142,10 +160,20 @@ def issued_ok(st):
             'issued.room-names': FA([n, ro], z3.Implies(z3.And(r.c['dom'][n], r.c['.dom'][n][ro], ro != NONE), iss.c['.'][ro]))}
 
 
-def cb_present(st, sid, k):
-    cb = st.get('manager', 'callbacks')
+def cb_present(st, sid, k, obj='manager'):
+    cb = st.get(obj, 'callbacks')
     return z3.And(cb.c['dom'][sid], cb.c['.dom'][sid][k])
 
 
-def cb_val(st, sid, k):
-    return st.get('manager', 'callbacks').c['..'][sid][k]
+def cb_val(st, sid, k, obj='manager'):
+    return st.get(obj, 'callbacks').c['..'][sid][k]
+
+
+def outstanding(st, sid, k, obj='manager'):
+    """an application callback is waiting under (sid, id)"""
+    return z3.And(cb_present(st, sid, k, obj), cb_val(st, sid, k, obj) != COUNTER)
+
+
+def wire_value(v):
+    """v can be the id field of a decoded packet (JSON / msgpack value), i.e. not a private sentinel object"""
+    return smt.kind(v) != smt.K_OTHER
